@@ -226,13 +226,22 @@ def insertObj : Nat → Nat → Nat → Nat → St → M (Nat × St)
               (match insertObj fuel x pos y s with
                | .error e => .error e
                | .ok (r, s') => .ok (some r, s'))
-            | none, _ => .error .attribute     -- `a_attr.__class__` is `NoneType`: no `empty_from`
+            | none, none => .ok (none, s)
+            | none, some y =>
+              -- `a` has no such attribute: NaN rows for the rows of `a`, then `insert(empty, pos, b_attr)`
+              (match s.heap[y]? with
+               | none => .error .dangling
+               | some oy =>
+                 let (e, s0) := s.alloc (emptyObj oy.kind oy.ndim oy.cols oa.rows.length)
+                 match insertObj fuel e pos y s0 with
+                 | .error err => .error err
+                 | .ok (r, s') => .ok (some r, s'.pop e))
             | some x, none =>
-              -- `empty_attr = attr_cls.empty_from(a)`: NaN rows shaped like the *holder* `a`
+              -- `b` has no such attribute: NaN rows for the rows of `b`, then `insert(a_attr, pos, empty)`
               match s.heap[x]? with
               | none => .error .dangling
               | some ox =>
-                let (e, s0) := s.alloc (emptyObj ox.kind oa.ndim oa.cols oa.rows.length)
+                let (e, s0) := s.alloc (emptyObj ox.kind ox.ndim ox.cols ob.rows.length)
                 match insertObj fuel x pos e s0 with
                 | .error err => .error err
                 | .ok (r, s') => .ok (some r, s'.pop e)
@@ -322,6 +331,10 @@ where lenL : List Field → Nat
 
 def collLen (h : Heap) (fs : List Field) : Nat := Field.len.lenL h fs
 
+/-- `CollectionField._num_rows()`: the length of the collection, or — for a collection without
+fields, which has no field to take it from — the `num_obs` the field remembers -/
+def collRows (h : Heap) (no : Nat) (fs : List Field) : Nat := if fs.isEmpty then no else collLen h fs
+
 /-! ### `subset` -/
 
 /-- `FieldType.subset(idx, memo)` / `CollectionField._subset`, then `num_obs = len(data)` -/
@@ -331,10 +344,16 @@ def subsetField (idx : Index) : Field → St → M (Field × St)
     match r with
     | .error e => .error e
     | .ok (o', s') => .ok (.leaf n k o' (objLen s'.heap o') u l, s')
-  | .coll n _ l fs, s =>
+  | .coll n no l fs, s =>
     match subsetFields fs s with
     | .error e => .error e
-    | .ok (fs', s') => .ok (.coll n (collLen s'.heap fs') l fs', s')
+    | .ok (fs', s') =>
+      if fs'.isEmpty then
+        -- `CollectionField.subset` of a collection without fields: `len(np.arange(num_rows)[idx])`
+        match pick idx (List.range no) with
+        | .error e => .error e
+        | .ok sel => .ok (.coll n sel.length l fs', s')
+      else .ok (.coll n (collLen s'.heap fs') l fs', s')
 where subsetFields : List Field → St → M (List Field × St)
   | [], s => .ok ([], s)
   | f :: fs, s =>
@@ -409,10 +428,10 @@ def padField (front : Bool) (n : Nat) : Field → St → M (Field × St)
         match r with
         | .error e => .error e
         | .ok (o', s') => .ok (.leaf nm k o' (objLen s'.heap o') u l, s')
-    | .coll nm _ l fs =>
+    | .coll nm no l fs =>
       match padFields fs s with
       | .error e => .error e
-      | .ok (fs', s') => .ok (.coll nm (collLen s'.heap fs') l fs', s')
+      | .ok (fs', s') => .ok (.coll nm (if fs'.isEmpty then no + n else collLen s'.heap fs') l fs', s')
 where padFields : List Field → St → M (List Field × St)
   | [], s => .ok ([], s)
   | f :: fs, s =>
@@ -484,12 +503,12 @@ loop; the append loop runs in field order; a collection only in `other` is copie
 def extendField (us : Units) : Field → Field → St → M (Field × St)
   | .leaf nm k o no u l, g, s => extendLeaf us nm k o no u l g s
   | .coll _ _ _ _, .leaf .., _ => .error .value
-  | .coll nm _ l fs, .coll _ _ _ gs, s =>
-    let selfLen := collLen s.heap fs
-    let otherLen := collLen s.heap gs
+  | .coll nm no l fs, .coll _ no2 _ gs, s =>
+    let selfLen := collRows s.heap no fs
+    let otherLen := collRows s.heap no2 gs
     match extendFinish (names fs) (names gs) otherLen (loop1 (names fs) selfLen fs gs s) with
     | .error e => .error e
-    | .ok (fs', s') => .ok (.coll nm (collLen s'.heap fs') l fs', s')
+    | .ok (fs', s') => .ok (.coll nm (if fs'.isEmpty then selfLen + otherLen else collLen s'.heap fs') l fs', s')
 where
   /-- the loop over `other._fields.items()`; `acc` is `self._fields` so far -/
   loop1 (selfKeys : List String) (selfLen : Nat) (acc : List Field) : List Field → St → M (List Field × St)
